@@ -121,6 +121,7 @@ type Pattern struct {
 	TwiceSameKey     bool // any key written twice
 	ChangesExisting  bool // updates / re-keys / removes an item that existed before
 	RemovesExisting  bool
+	RemovedExisting  int // number of removals of items that existed before
 }
 
 func PatternOf(w *Writer, init map[int]int) Pattern {
@@ -186,6 +187,7 @@ func PatternOf(w *Writer, init map[int]int) Pattern {
 					removed[o.Key] = true
 					p.ChangesExisting = true
 					p.RemovesExisting = true
+					p.RemovedExisting++
 				}
 				delete(added, o.Key)
 				delete(m, o.Key)
